@@ -43,7 +43,9 @@ func Scenario(c Cfg) {
 		ctx, cancel = context.WithTimeout(context.Background(), tick(c.Timeout))
 		go func() {
 			<-ctx.Done()
-			env.Log("cancel") // stamped with the instant of the deadline
+			if ctx.Err() == context.DeadlineExceeded { // not the consumer's own cancel at the end of a complete run
+				env.Log("cancel") // stamped with the instant of the deadline
+			}
 		}()
 	}
 	// generator consumer: follows its script, then cancels and leaves
